@@ -2,7 +2,7 @@ import hashlib as _hashlib
 _c28_base = _hashlib.sha256(open(_os.path.join(_os.path.dirname(_os.path.abspath(_f)), 'c27_llbase.hpp'), 'rb').read()).hexdigest()[:16]
 
 target('c28_encryption', 'engines/ll/c28_encryption.cpp',
-       quick=dict(cases=40000, size=40), thorough=dict(cases=800000, size=60),
+       quick=dict(cases=320000, size=40), thorough=dict(cases=800000, size=60),
        extra_src=LL_SRC, cxxflags=['-DC27_LLBASE_SHA=0x' + _c28_base])
 prop('C28', ['c28_encryption'], 'll',
      rule='rapidcheck generates a security manager configuration (legacy / LESC / both, always with a bond data base owned by '
